@@ -45,7 +45,7 @@ open Conv ConvSpec
 the sample was tagged with, at its recorded time and with weight 1 — whatever the mapping queue and the
 perf map are. -/
 theorem C01_flush_no_loss_partial (pm maps : List MapAdd) (q : List (Nat × MapAdd)) (us : List USample) :
-    (flushBuffer pm maps q us).map (fun o => (o.1, o.2.t, o.2.weight)) = us.map (fun u => (u.th, u.t, 1)) := by
+    (flushBuffer pm maps q us).map (fun o => (o.1, o.2.t, o.2.weight)) = us.map (fun u => (u.th, u.t, u.weight)) := by
   induction us generalizing maps q with
   | nil => rfl
   | cons u rest ih =>
@@ -56,7 +56,7 @@ theorem C01_flush_no_loss_partial (pm maps : List MapAdd) (q : List (Nat × MapA
 /-- The same for the whole flush: the output samples are the concatenation of all parked and live buffers. -/
 theorem C01_flushAll_no_loss_partial (s : St) :
     (flushAll s).map (fun o => (o.1, o.2.t, o.2.weight)) =
-      (allBuffers s).flatMap (fun b => b.1.map (fun u => (u.th, u.t, 1))) := by
+      (allBuffers s).flatMap (fun b => b.1.map (fun u => (u.th, u.t, u.weight))) := by
   unfold flushAll
   rw [List.map_flatMap]
   congr 1
@@ -89,6 +89,9 @@ theorem accStep_no_idle (st : Last × List Acc) (r : Rec) (h : ∀ a ∈ st.2, a
     · simp only [accStep]; split <;> exact h
   | fork => exact h
   | mmap2 => exact h
+  | switchIn => exact h
+  | switchOut => exact h
+  | sched => exact h
 
 /-- The specification never accepts an idle-thread sample. -/
 theorem C01_accepted_no_idle (rs : List Rec) : ∀ a ∈ accepted rs, a.tid ≠ 0 := by
@@ -101,10 +104,11 @@ theorem C01_accepted_no_idle (rs : List Rec) : ∀ a ∈ accepted rs, a.tid ≠ 
 
 /-! ### Conservation along every history -/
 
-/-- The converter run simulates the specification fold: in every reachable state the buffered samples are,
-as a multiset of (pid, tid, profile time), the accepted samples of the history so far. -/
+/-- The converter run simulates the specification fold: in every reachable state the buffered recorded samples
+(those not synthesized from an off-CPU group) are, as a multiset of (pid, tid, profile time), the accepted
+samples of the history so far. -/
 theorem C01_buffered_eq_accepted (cfg : Config) (rs : List Rec) :
-    List.Perm ((buffered (run cfg rs)).map (fun u => (u.gpid, u.gtid, u.t)))
+    List.Perm (((buffered (run cfg rs)).filter (fun u => !u.synth)).map (fun u => (u.gpid, u.gtid, u.t)))
       ((accepted rs).map (fun a => (a.pid, a.tid, a.t - cfg.ref))) :=
   (run_sim cfg rs).buf
 
@@ -118,28 +122,72 @@ theorem C01_dedup_refinement (cfg : Config) (rs : List Rec) (pid tid : Nat) :
 existing process entry, and the keys of the process table are distinct. -/
 theorem C01_state_valid (cfg : Config) (rs : List Rec) : InvA (run cfg rs) := (run_sim cfg rs).inv
 
-/-- no sample lost, none invented, weight 1, recorded time, on the thread entry carrying the sample's tid
-    inside the process entry carrying its pid (default options: no thread reuse) -/
+/-- the recorded (not synthesized) samples of a view -/
+def C01_recorded (v : View) : List OutSample := v.samples.filter (fun o => !o.synth)
+
+theorem C01_filter_flatMap_aux {γ} (vs : List View) (f : View → OutSample → γ) :
+    (vs.flatMap (fun v => v.samples.map (fun o => (o.synth, f v o)))).filter (fun x => !x.1) =
+      vs.flatMap (fun v => (C01_recorded v).map (fun o => (false, f v o))) := by
+  induction vs with
+  | nil => rfl
+  | cons v vs ih =>
+    simp only [List.flatMap_cons, List.filter_append, ih]
+    congr 1
+    unfold C01_recorded
+    generalize v.samples = l
+    induction l with
+    | nil => rfl
+    | cons o l ih2 =>
+      simp only [List.map_cons, List.filter_cons]
+      cases ho : o.synth <;> simp [ih2]
+
+/-- Generic form: the recorded output samples, keyed by anything computable from entry, time and weight, are
+the recorded buffered samples. -/
+theorem C01_recorded_perm {γ} (s : St) (hinv : InvA s) (hsok : ∀ u ∈ buffered s, u.th < (tsk s.tents).length)
+    (F : View → OutSample → γ) (G : Nat → Nat → Nat → γ)
+    (hFG : ∀ i te v, s.tents[i]? = some te → viewOf s (flushAll s) i te = some v → ∀ o, F v o = G i o.t o.weight) :
+    List.Perm ((views s).flatMap (fun v => (C01_recorded v).map (F v)))
+      (((buffered s).filter (fun u => !u.synth)).map (fun u => G u.th u.t u.weight)) := by
+  have h1 := views_perm_buffered s hinv hsok (fun v o => (o.synth, F v o)) (fun i t w sy => (sy, G i t w))
+    (fun i te v hte hv o => by rw [hFG i te v hte hv o])
+  have h2 := (h1.filter (fun x => !x.1)).map Prod.snd
+  rw [C01_filter_flatMap_aux] at h2
+  have e1 : ((views s).flatMap (fun v => (C01_recorded v).map (fun o => (false, F v o)))).map Prod.snd =
+      (views s).flatMap (fun v => (C01_recorded v).map (F v)) := by
+    rw [List.map_flatMap]; congr 1; funext v; rw [List.map_map]; rfl
+  have e2 : (((buffered s).map (fun u => (u.synth, G u.th u.t u.weight))).filter (fun x => !x.1)).map Prod.snd =
+      ((buffered s).filter (fun u => !u.synth)).map (fun u => G u.th u.t u.weight) := by
+    rw [List.filter_map, List.map_map]; rfl
+  rw [e1, e2] at h2
+  exact h2
+
+/-- **Conservation of samples**, for every configuration of the off-CPU machinery (`cfg.offCpu`, interval) and
+every record history incl. context-switch records and sched_switch samples: the *recorded* samples of the
+output (those not synthesized from an off-CPU group) are, as a multiset of (pid, tid, time, weight), exactly the
+accepted samples of the history with weight 1 — no sample lost, none invented, on the thread entry carrying
+the sample's tid inside the process entry carrying its pid (default options: no thread reuse). Synthesized
+off-CPU samples are *additional* samples; what they are is the subject of `C12_conv_*` / `C01_synth_*`. -/
 theorem C01_conservation (cfg : Config) (rs : List Rec) (hr : cfg.reuse = false) :
     List.Perm
-      ((views (run cfg rs)).flatMap (fun v => v.samples.map (fun o => (v.pidBase, v.tidBase, o.t, o.weight))))
+      ((views (run cfg rs)).flatMap (fun v => (C01_recorded v).map (fun o => (v.pidBase, v.tidBase, o.t, o.weight))))
       ((accepted rs).map (fun a => (a.pid, a.tid, a.t - cfg.ref, 1))) := by
   have hsim := run_sim cfg rs
   generalize run cfg rs = s at hsim
-  have h1 := views_perm_buffered s hsim.inv (fun u hu => (hsim.sok u hu).1)
+  have h1 := C01_recorded_perm s hsim.inv (fun u hu => (hsim.sok u hu).1)
     (fun v o => (v.pidBase, v.tidBase, o.t, o.weight))
     (fun i t w => ((entKey s i).1, (entKey s i).2, t, w))
     (fun i te v hte hv o => by
       have := viewOf_key hte hv
       simp only [← this])
   refine h1.trans ?_
-  have h2 : (buffered s).map (fun u => ((entKey s u.th).1, (entKey s u.th).2, u.t, 1)) =
-      ((buffered s).map proj).map (fun x => (x.1, x.2.1, x.2.2, 1)) := by
+  have h2 : ((buffered s).filter (fun u => !u.synth)).map (fun u => ((entKey s u.th).1, (entKey s u.th).2, u.t, u.weight)) =
+      (((buffered s).filter (fun u => !u.synth)).map proj).map (fun x => (x.1, x.2.1, x.2.2, 1)) := by
     rw [List.map_map]
     apply List.map_congr_left
     intro u hu
-    obtain ⟨ph, h3, h4⟩ := (hsim.sok u hu).2 (by rw [hsim.hcfg]; exact hr)
-    rw [entKey_of_skel h3 h4]
+    obtain ⟨hu1, hu2⟩ := List.mem_filter.mp hu
+    obtain ⟨ph, h3, h4⟩ := (hsim.sok u hu1).2 (by rw [hsim.hcfg]; exact hr)
+    rw [entKey_of_skel h3 h4, hsim.w1 u hu1 (by simpa using hu2)]
     rfl
   rw [h2]
   refine (hsim.buf.map _).trans (List.Perm.of_eq ?_)
@@ -148,52 +196,57 @@ theorem C01_conservation (cfg : Config) (rs : List Rec) (hr : cfg.reuse = false)
   rfl
 
 /-- with thread reuse enabled samples may be merged into entries of earlier incarnations, but still every
-    accepted sample appears exactly once at its time with weight 1 and nothing else appears -/
+    accepted sample appears exactly once at its time with weight 1 and no other recorded sample appears -/
 theorem C01_conservation_reuse (cfg : Config) (rs : List Rec) :
     List.Perm
-      ((views (run cfg rs)).flatMap (fun v => v.samples.map (fun o => (o.t, o.weight))))
+      ((views (run cfg rs)).flatMap (fun v => (C01_recorded v).map (fun o => (o.t, o.weight))))
       ((accepted rs).map (fun a => (a.t - cfg.ref, 1))) := by
   have hsim := run_sim cfg rs
   generalize run cfg rs = s at hsim
-  have h1 := views_perm_buffered s hsim.inv (fun u hu => (hsim.sok u hu).1)
+  have h1 := C01_recorded_perm s hsim.inv (fun u hu => (hsim.sok u hu).1)
     (fun _ o => (o.t, o.weight)) (fun _ t w => (t, w)) (fun _ _ _ _ _ _ => rfl)
   refine h1.trans ?_
-  have h2 : (buffered s).map (fun u => (u.t, 1)) = ((buffered s).map proj).map (fun x => (x.2.2, 1)) := by
-    rw [List.map_map]; rfl
+  have h2 : ((buffered s).filter (fun u => !u.synth)).map (fun u => (u.t, u.weight)) =
+      (((buffered s).filter (fun u => !u.synth)).map proj).map (fun x => (x.2.2, 1)) := by
+    rw [List.map_map]
+    apply List.map_congr_left
+    intro u hu
+    obtain ⟨hu1, hu2⟩ := List.mem_filter.mp hu
+    simp only [Function.comp, proj, hsim.w1 u hu1 (by simpa using hu2)]
   rw [h2]
   refine (hsim.buf.map _).trans (List.Perm.of_eq ?_)
   unfold accepted
   rw [List.map_map]
   rfl
 
-/-- the output contains exactly as many samples as the history has accepted samples (any options) -/
+/-- the output contains exactly as many recorded samples as the history has accepted samples (any options) -/
 theorem C01_count (cfg : Config) (rs : List Rec) :
-    ((views (run cfg rs)).flatMap (fun v => v.samples)).length = (accepted rs).length := by
+    ((views (run cfg rs)).flatMap C01_recorded).length = (accepted rs).length := by
   have h := (C01_conservation_reuse cfg rs).length_eq
   rw [List.length_map] at h
   rw [← h]
   simp only [List.length_flatMap, List.length_map]
 
-/-- every output sample has weight 1 (any options) -/
+/-- every recorded output sample has weight 1 (any options) -/
 theorem C01_weight_one (cfg : Config) (rs : List Rec) :
-    ∀ v ∈ views (run cfg rs), ∀ o ∈ v.samples, o.weight = 1 := by
+    ∀ v ∈ views (run cfg rs), ∀ o ∈ C01_recorded v, o.weight = 1 := by
   intro v hv o ho
-  have hm : (o.t, o.weight) ∈ (views (run cfg rs)).flatMap (fun v => v.samples.map (fun o => (o.t, o.weight))) :=
+  have hm : (o.t, o.weight) ∈ (views (run cfg rs)).flatMap (fun v => (C01_recorded v).map (fun o => (o.t, o.weight))) :=
     List.mem_flatMap.mpr ⟨v, hv, List.mem_map_of_mem (f := fun o : OutSample => (o.t, o.weight)) ho⟩
   have := (C01_conservation_reuse cfg rs).mem_iff.mp hm
   obtain ⟨a, _, ha⟩ := List.mem_map.mp this
   exact (congrArg Prod.snd ha).symm
 
-/-- every output sample sits at the converted time of an accepted sample of its own (pid, tid), and every
-accepted sample is found on an entry of its (pid, tid) (default options) -/
+/-- every recorded output sample sits at the converted time of an accepted sample of its own (pid, tid), and
+every accepted sample is found on an entry of its (pid, tid) (default options) -/
 theorem C01_membership (cfg : Config) (rs : List Rec) (hr : cfg.reuse = false) (pid tid t : Nat) :
-    (∃ v ∈ views (run cfg rs), v.pidBase = pid ∧ v.tidBase = tid ∧ ∃ o ∈ v.samples, o.t = t) ↔
+    (∃ v ∈ views (run cfg rs), v.pidBase = pid ∧ v.tidBase = tid ∧ ∃ o ∈ C01_recorded v, o.t = t) ↔
       (∃ a ∈ accepted rs, a.pid = pid ∧ a.tid = tid ∧ a.t - cfg.ref = t) := by
   have hp := C01_conservation cfg rs hr
   constructor
   · rintro ⟨v, hv, rfl, rfl, o, ho, rfl⟩
     have hm : (v.pidBase, v.tidBase, o.t, o.weight) ∈ (views (run cfg rs)).flatMap
-        (fun v => v.samples.map (fun o => (v.pidBase, v.tidBase, o.t, o.weight))) :=
+        (fun v => (C01_recorded v).map (fun o => (v.pidBase, v.tidBase, o.t, o.weight))) :=
       List.mem_flatMap.mpr ⟨v, hv,
         List.mem_map_of_mem (f := fun o : OutSample => (v.pidBase, v.tidBase, o.t, o.weight)) ho⟩
     obtain ⟨a, ha, heq⟩ := List.mem_map.mp (hp.mem_iff.mp hm)
